@@ -171,3 +171,13 @@ pub fn outcome_summary(rep: &SimReport) -> Value {
 pub fn parse<T: serde::de::DeserializeOwned>(v: &Value) -> Option<T> {
     serde_json::from_value(v.clone()).ok()
 }
+
+/// Key with a deliberately coarse `Hash` (keys collide pairwise) and an exact `Eq`: legal, and an
+/// implementation that identifies keys by their hash alone mixes different keys up.
+#[derive(Clone, Debug, PartialEq, Eq)]
+pub struct CKey(pub u32);
+impl std::hash::Hash for CKey {
+    fn hash<H: std::hash::Hasher>(&self, state: &mut H) {
+        (self.0 % 2).hash(state)
+    }
+}
